@@ -1,19 +1,402 @@
-//! Engine `parse` — not built yet (stub).
+//! Engine `parse` (C05): expression text through the real Pratt parser (facade `axmosdb::verif::parse`), AST dump
+//! compared with the Lean parser model running on the extracted binding-power table.
+//! Case syntax: see `lean/AxVerif/Driver/Parse.lean`.
 use super::{Case, Engine, Tier};
 use crate::rng::Rng;
+use crate::util::{hex_or_dash, unhex};
+use axmosdb::verif::parse as facade;
 
 pub struct ParseEngine;
 
-impl Engine for ParseEngine {
-    fn gen_cases(&self, _rng: &mut Rng, _tier: Tier) -> Vec<Case> {
-        Vec::new()
-    }
-    fn exec(&mut self, _line: &str) -> String {
-        "unimplemented".into()
+#[derive(Clone, Debug)]
+enum X {
+    Num(i64),
+    Str(String),
+    Bool(bool),
+    Null,
+    Id(String),
+    Qid(String, String),
+    Un(&'static str, Box<X>),                 // pos neg not
+    Bin(&'static str, Box<X>, Box<X>),
+    Between(bool, Box<X>, Box<X>, Box<X>),
+    In(bool, Box<X>, Vec<X>),
+}
+
+/// (left, right) binding power of the documented grammar
+fn power(op: &str) -> (u8, u8) {
+    match op {
+        "or" => (1, 2),
+        "and" => (3, 4),
+        "plus" | "minus" | "concat" => (7, 8),
+        "mul" | "div" | "mod" => (9, 10),
+        _ => (5, 6),
     }
 }
 
-/// Content of `lean/AxVerif/Generated/<Engine>.lean`, if this engine extracts constants from the code.
+fn cmp_level(op: &str) -> bool {
+    power(op) == (5, 6)
+}
+
+fn level(x: &X) -> u8 {
+    match x {
+        X::Un("not", _) => 5,
+        X::Un(..) => 11,
+        X::Bin(op, ..) => power(op).0,
+        X::Between(..) | X::In(..) => 5,
+        _ => 200,
+    }
+}
+
+fn sym(op: &str) -> &'static str {
+    match op {
+        "or" => "OR",
+        "and" => "AND",
+        "eq" => "=",
+        "neq" => "<>",
+        "lt" => "<",
+        "gt" => ">",
+        "le" => "<=",
+        "ge" => ">=",
+        "like" => "LIKE",
+        "notlike" => "NOT LIKE",
+        "plus" => "+",
+        "minus" => "-",
+        "concat" => "||",
+        "mul" => "*",
+        "div" => "/",
+        "mod" => "%",
+        "is" => "IS",
+        _ => "IS NOT",
+    }
+}
+
+/// words of the minimal-parentheses rendering (the same printer as `Parser.body` in the Lean model);
+/// with `extra` some operands get redundant parentheses
+fn words(x: &X, need: u8, out: &mut Vec<String>, extra: &mut dyn FnMut() -> bool) {
+    let wrap = level(x) < need || (extra() && !matches!(x, X::Num(n) if *n < 0));
+    if wrap {
+        out.push("(".into());
+    }
+    match x {
+        X::Num(n) => {
+            if *n < 0 {
+                out.push("-".into());
+                out.push(n.unsigned_abs().to_string());
+            } else {
+                out.push(n.to_string())
+            }
+        }
+        X::Str(s) => out.push(format!("'{}'", s.replace('\'', "''"))),
+        X::Bool(b) => out.push(if *b { "TRUE" } else { "FALSE" }.into()),
+        X::Null => out.push("NULL".into()),
+        X::Id(s) => out.push(s.clone()),
+        X::Qid(t, c) => out.push(format!("{}.{}", t, c)),
+        X::Un(op, e) => {
+            out.push(match *op {
+                "pos" => "+",
+                "neg" => "-",
+                _ => "NOT",
+            }
+            .into());
+            words(e, level(x), out, extra);
+        }
+        X::Bin(op, l, r) => {
+            let (lb, rb) = power(op);
+            words(l, if cmp_level(op) { rb } else { lb }, out, extra);
+            out.push(sym(op).into());
+            words(r, rb, out, extra);
+        }
+        X::Between(neg, e, lo, hi) => {
+            words(e, 6, out, extra);
+            out.push(if *neg { "NOT BETWEEN" } else { "BETWEEN" }.into());
+            words(lo, 7, out, extra);
+            out.push("AND".into());
+            words(hi, 7, out, extra);
+        }
+        X::In(neg, e, items) => {
+            words(e, 6, out, extra);
+            out.push(if *neg { "NOT IN" } else { "IN" }.into());
+            out.push("(".into());
+            for (i, it) in items.iter().enumerate() {
+                if i > 0 {
+                    out.push(",".into());
+                }
+                words(it, 0, out, extra);
+            }
+            out.push(")".into());
+        }
+    }
+    if wrap {
+        out.push(")".into());
+    }
+}
+
+fn gen_x(rng: &mut Rng, depth: u32) -> X {
+    if depth == 0 || rng.chance(1, 4) {
+        return match rng.below(8) {
+            0 => X::Num(rng.range(-9, 99)),
+            1 => X::Num(rng.range(0, 5)),
+            2 => X::Str((*rng.pick(&["", "a", "it's", "x%", "NOT", "a b"])).to_string()),
+            3 => X::Bool(rng.chance(1, 2)),
+            4 => X::Null,
+            5 => X::Qid((*rng.pick(&["t", "r0", "T_1"])).to_string(), (*rng.pick(&["c", "c1", "x_y"])).to_string()),
+            _ => X::Id((*rng.pick(&["a", "b", "c", "id", "x1", "_u", "Nota", "inx", "ORDERS"])).to_string()),
+        };
+    }
+    let d = depth - 1;
+    match rng.below(14) {
+        0 => {
+            // `- <non-negative number>` is a literal for the parser, not a unary minus
+            let e = gen_x(rng, d);
+            match e {
+                X::Num(n) if n >= 0 => X::Num(-n),
+                e => X::Un("neg", Box::new(e)),
+            }
+        }
+        1 => X::Un("pos", Box::new(gen_x(rng, d))),
+        2 | 3 => X::Un("not", Box::new(gen_x(rng, d))),
+        4 => X::Between(rng.chance(1, 2), Box::new(gen_x(rng, d)), Box::new(gen_x(rng, d)), Box::new(gen_x(rng, d))),
+        5 => {
+            let n = 1 + rng.below(3) as usize;
+            X::In(rng.chance(1, 2), Box::new(gen_x(rng, d)), (0..n).map(|_| gen_x(rng, d)).collect())
+        }
+        6 => X::Bin(*rng.pick(&["is", "isnot"]), Box::new(gen_x(rng, d)), Box::new(X::Null)),
+        _ => {
+            let op = *rng.pick(&[
+                "or", "and", "eq", "neq", "lt", "gt", "le", "ge", "like", "notlike", "plus", "minus", "concat", "mul",
+                "div", "mod", "or", "and", "plus", "mul",
+            ]);
+            X::Bin(op, Box::new(gen_x(rng, d)), Box::new(gen_x(rng, d)))
+        }
+    }
+}
+
+fn features(x: &X, tags: &mut std::collections::BTreeSet<String>) {
+    match x {
+        X::Un(op, e) => {
+            tags.insert(format!("un.{}", op));
+            if let X::Bin(o2, ..) = &**e {
+                tags.insert(format!("un.{}.over.{}", op, o2));
+            }
+            features(e, tags)
+        }
+        X::Bin(op, l, r) => {
+            tags.insert(format!("bin.{}", op));
+            for (side, c) in [("l", l), ("r", r)] {
+                if let X::Bin(o2, ..) = &**c {
+                    let rel = match power(o2).0.cmp(&power(op).0) {
+                        std::cmp::Ordering::Less => "lower",
+                        std::cmp::Ordering::Equal => "same",
+                        std::cmp::Ordering::Greater => "higher",
+                    };
+                    tags.insert(format!("nest.{}.{}", side, rel));
+                }
+                if let X::Un(o2, _) = &**c {
+                    tags.insert(format!("nest.{}.un.{}", side, o2));
+                }
+            }
+            features(l, tags);
+            features(r, tags)
+        }
+        X::Between(neg, e, lo, hi) => {
+            tags.insert(if *neg { "notbetween".into() } else { "between".into() });
+            features(e, tags);
+            features(lo, tags);
+            features(hi, tags)
+        }
+        X::In(neg, e, items) => {
+            tags.insert(if *neg { "notin".into() } else { "in".into() });
+            features(e, tags);
+            for i in items {
+                features(i, tags)
+            }
+        }
+        X::Num(n) if *n < 0 => {
+            tags.insert("neg-literal".into());
+        }
+        _ => {}
+    }
+}
+
+/// hand-written precedence traps and lexical oddities
+const TRICKY: [&str; 40] = [
+    "NOT a AND b",
+    "NOT a > 10 AND id < 2",
+    "NOT a OR b AND c",
+    "NOT NOT a",
+    "NOT a = b = c",
+    "a BETWEEN 1 AND 2 AND c",
+    "a NOT BETWEEN 1 AND 2 OR c",
+    "a BETWEEN 1 + 2 AND 3 * 4",
+    "NOT a BETWEEN 1 AND 2",
+    "NOT x IN (1, 2)",
+    "x NOT IN (1)",
+    "NOT x NOT IN (1, 2, 3)",
+    "x IN (1, 2) AND y",
+    "- - 1",
+    "- - a",
+    "- a * b",
+    "x * - a / b",
+    "- a + b",
+    "+ a * - b",
+    "-1 * 2",
+    "a - -1",
+    "a -1",
+    "a+-1",
+    "a * (b + c)",
+    "(a + b) * c",
+    "a - (b - c)",
+    "a - b - c",
+    "a / b * c % d",
+    "a || b + c",
+    "a = b + 1 AND c <> d OR e",
+    "a IS NULL AND b IS NOT NULL",
+    "NOT a IS NULL",
+    "a LIKE 'x%' OR b NOT LIKE '_y'",
+    "a NOT LIKE b || c",
+    "  a   <=  b  ",
+    "a<=b",
+    "a<>b",
+    "a!=b",
+    "t.c = 'it''s'",
+    "not A and B or tRuE",
+];
+
+fn tricky_bad() -> Vec<&'static str> {
+    vec!["", "a +", "a AND", "(a", "a)", "a b", "NOT", "a NOT b", "a BETWEEN 1", "a IN ()", "a IN (1", "a = = b", ", a"]
+}
+
+impl Engine for ParseEngine {
+    fn gen_cases(&self, rng: &mut Rng, tier: Tier) -> Vec<Case> {
+        let n = match tier {
+            Tier::Quick => 6000,
+            Tier::Thorough => 100_000,
+        };
+        let mut cases = Vec::new();
+        for t in TRICKY {
+            cases.push(Case::new(format!("expr {}", hex_or_dash(t.as_bytes())), &["tricky", "nt"]));
+        }
+        for t in tricky_bad() {
+            cases.push(Case::new(format!("expr {}", hex_or_dash(t.as_bytes())), &["malformed", "nt"]));
+        }
+        for _ in 0..n {
+            let depth = rng.range(1, 4) as u32;
+            let x = gen_x(rng, depth);
+            let mut tags = std::collections::BTreeSet::new();
+            features(&x, &mut tags);
+            let redundant = rng.chance(1, 4);
+            let mut r2 = rng.fork("extra");
+            let mut ws = Vec::new();
+            words(&x, 0, &mut ws, &mut || redundant && r2.chance(1, 5));
+            tags.insert(if redundant { "parens.redundant".into() } else { "parens.minimal".into() });
+            // spacing: single blanks, or none where two words cannot merge
+            let tight = rng.chance(1, 5);
+            let mut text = String::new();
+            for (i, w) in ws.iter().enumerate() {
+                if i > 0 {
+                    let prev = ws[i - 1].as_bytes();
+                    let a = *prev.last().unwrap();
+                    let b = w.as_bytes()[0];
+                    let wordy = |c: u8| c.is_ascii_alphanumeric() || c == b'_' || c == b'\'' || c == b'.';
+                    let glue = tight
+                        && !(wordy(a) && wordy(b))
+                        && !(a == b'-' && b == b'-')
+                        && !matches!((a, b), (b'<', b'=') | (b'<', b'>') | (b'>', b'=') | (b'|', b'|') | (b'!', b'='))
+                        && !(a == b'<' || a == b'>' || a == b'|' || a == b'!')
+                        && !(b == b'=' && (a == b'<' || a == b'>'));
+                    if !glue {
+                        text.push(' ');
+                    }
+                }
+                if rng.chance(1, 10) && w.bytes().all(|c| c.is_ascii_uppercase() || c == b' ') {
+                    text.push_str(&w.to_lowercase());
+                } else {
+                    text.push_str(w);
+                }
+            }
+            tags.insert(format!("depth.{}", depth));
+            tags.insert("nt".into());
+            cases.push(Case { line: format!("expr {}", hex_or_dash(text.as_bytes())), tags: tags.into_iter().collect() });
+        }
+        cases
+    }
+
+    fn exec(&mut self, line: &str) -> String {
+        let ws: Vec<&str> = line.split_whitespace().collect();
+        match ws.as_slice() {
+            ["expr", h] => match unhex(h).and_then(|b| String::from_utf8(b).ok()) {
+                None => "bad-op".into(),
+                Some(text) => match facade::parse_expression_dump(&text) {
+                    Ok(d) => format!("ok {}", d),
+                    Err(_) => "err".into(),
+                },
+            },
+            ["text", h] => match unhex(h).and_then(|b| String::from_utf8(b).ok()) {
+                None => "bad-op".into(),
+                Some(t) => t,
+            },
+            _ => "bad-op".into(),
+        }
+    }
+}
+
+/// `lean/AxVerif/Generated/Parse.lean`: the binding powers the code uses, obtained by evaluating / probing the parser.
 pub fn generated() -> Option<(&'static str, String)> {
-    None
+    let t = facade::binding_powers();
+    let get = |name: &str| -> Option<(u8, u8)> { t.iter().find(|(n, _)| n == name).and_then(|(_, v)| *v) };
+    let pair = |name: &str| -> String {
+        match get(name) {
+            Some((l, r)) => format!("({}, {})", l, r),
+            None => "(0, 0)".into(),
+        }
+    };
+    let opt = |name: &str| -> String {
+        match get(name) {
+            Some((l, r)) => format!("some ({}, {})", l, r),
+            None => "none".into(),
+        }
+    };
+    let first = |name: &str| -> String { get(name).map(|p| p.0.to_string()).unwrap_or_else(|| "0".into()) };
+    let s = format!(
+        "/- REGENERATED on every run by `axh extract` from values evaluated out of /repo. Do not edit. -/\n\
+import AxVerif.Model.Parser\n\
+namespace AxVerif.Generated\n\n\
+def parseTable : AxVerif.Parser.Table :=\n  \
+{{ or_ := {}, and_ := {}, eq := {}, neq := {}, lt := {}, gt := {}, le := {}, ge := {},\n    \
+like := {}, in_ := {}, between := {}, is_ := {}, plus := {}, minus := {},\n    \
+star := {}, slash := {}, percent := {}, concat := {},\n    \
+notIn := {}, notBetween := {}, notLike := {}, notOther := {},\n    \
+comma := {}, rparen := {},\n    \
+prefixNot := {}, prefixMinus := {}, prefixPlus := {}, betweenBound := {} }}\n\n\
+end AxVerif.Generated\n",
+        pair("or"),
+        pair("and"),
+        pair("eq"),
+        pair("neq"),
+        pair("lt"),
+        pair("gt"),
+        pair("le"),
+        pair("ge"),
+        pair("like"),
+        pair("in"),
+        pair("between"),
+        pair("is"),
+        pair("plus"),
+        pair("minus"),
+        pair("star"),
+        pair("slash"),
+        pair("percent"),
+        pair("concat"),
+        opt("not_in"),
+        opt("not_between"),
+        opt("not_like"),
+        opt("not_other"),
+        opt("comma"),
+        opt("rparen"),
+        first("prefix_not"),
+        first("prefix_minus"),
+        first("prefix_plus"),
+        first("between_bound"),
+    );
+    Some(("Parse.lean", s))
 }
